@@ -294,7 +294,11 @@ func (p *PALS) Align(complement bool) (dp.Hits, error) {
 	p.notifyf("Identified %d filter hits", p.morass.Len())
 
 	p.notify("Merging")
-	merger := filter.NewMerger(p.index, working, p.FilterParams, p.MaxIGap, p.selfCompare)
+	// On the complement strand the comparison is symmetric about the
+	// anti-diagonal, not the main diagonal, and the filter has already
+	// discarded the redundant half; only the direct strand has a trivial
+	// self match and a redundant lower triangle for the merger to drop.
+	merger := filter.NewMerger(p.index, working, p.FilterParams, p.MaxIGap, p.selfCompare && !complement)
 	var h filter.Hit
 	for {
 		if err = p.morass.Pull(&h); err != nil {
